@@ -40,7 +40,7 @@ NOOP_STATEMENTS = {
 def alphabet(kind="full", init_enum=False):
     per = {"full": PER_NAME_FULL, "reduced": PER_NAME_REDUCED, "core": PER_NAME_CORE,
            # lead: old-style (K&R) definitions - identifier list plus declaration list
-           "kr": PER_NAME_CORE + ("open_kr",),
+           "kr": PER_NAME_CORE + ("open_kr", "open_kr_enum"),
            # lead: definitions with an unnamed parameter of function type whose
            # own parameter list is a visible typedef name ('int * ( B )')
            # lead: statements that declare nothing visible afterwards, between
@@ -183,6 +183,12 @@ def apply(st, ev, typedef_labels=False):
         if in_function(st) or is_typedef(st, name):
             return None
         return (scopes + (("func", ((name, "ordinary", "param"),), ()),), (), linkage)
+    if k == "open_kr_enum":
+        # int g(e) enum { N } e; {   the enumerator declared in the old-style
+        # declaration list lives in the body's block like the parameters
+        if in_function(st):
+            return None
+        return (scopes + (("func", ((name, "ordinary", "enum"),), ()),), (), linkage)
     if k in ("open_abs", "open_abs2"):
         # void g(int N, int *(O)) {   with O a visible typedef name: '(O)' is the
         # parameter list of an unnamed function-typed parameter (C99 6.7.5.3p11),
@@ -259,6 +265,7 @@ def text(ev, idx):
         "proto": "void h%d ( int %s ) ;" % (idx, n),
         "open_fn": sp.get("open_fn", "void g%(i)d ( int %(n)s ) {") % {"n": n, "i": idx, "o": _other(n)},
         "open_kr": "int g%d ( %s , kk%d ) int %s ; char kk%d ; {" % (idx, n, idx, n, idx),
+        "open_kr_enum": "int g%d ( ee%d , kk%d ) char kk%d ; enum { %s } ee%d ; {" % (idx, idx, idx, idx, n, idx),
         "open_abs": "void g%d ( int %s , int * ( %s ) ) {" % (idx, n, _other(n)),
         "open_abs2": "void g%d ( int ( * ( %s ) ) , int * const ( ( %s ) ) , int %s ) {" % (idx, _other(n), _other(n), n),
         "for_decl": "for ( int %s = 0 ; ; ) if ( %s ) break ;" % (n, n),
